@@ -279,8 +279,6 @@ class CHECK(Check):
             yield from emit(dict(case, ykind="binary", y=[(i // 2) % 2 for i in range(n)]))
         if case["opt"] != "callable":
             yield from emit(dict(case, opt="callable"))
-        for r in case["X"]:
-            pass
         simple = [[str(F(F(v).numerator // max(1, F(v).denominator))) for v in r] for r in case["X"]]
         yield from emit(dict(case, X=simple))
 
